@@ -1,4 +1,6 @@
 import Firebolt.Model.Producer
+import Firebolt.Generated.Skeleton
+import Firebolt.Expected.Skeleton
 import Firebolt.Generated.Source
 import Firebolt.Expected.Source
 import Firebolt.Generated.Closure
@@ -76,6 +78,9 @@ theorem source_kpSetup : GeneratedSrc.kpSetup = ExpectedSrc.kpSetup := by rfl
 theorem source_kpStartEventsReceiver : GeneratedSrc.kpStartEventsReceiver = ExpectedSrc.kpStartEventsReceiver := by rfl
 theorem source_kpStop : GeneratedSrc.kpStop = ExpectedSrc.kpStop := by rfl
 theorem source_kpShutdown : GeneratedSrc.kpShutdown = ExpectedSrc.kpShutdown := by rfl
+
+/-! ### where the error reports the error producer serialises are built -/
+theorem skeleton_handleFailure : Generated.handleFailure = Expected.handleFailure := by rfl
 
 /-! ### influence closure: the pinned functions, and every function of the repository that writes a struct field or package
 variable they read, are unchanged (digests regenerated from /repo on every run; a difference names the functions) -/
